@@ -1,13 +1,13 @@
 SPECIFICATION Spec
 CONSTANTS
-  Writers <- W3
-  Subs <- S0
+  Writers <- W2
+  Subs <- S1
   Ids <- I1
   MaxV = 6
-  Programs <- CollPrograms
+  Programs <- SubCollPrograms
   SubKinds <- Kinds
   InitStores <- CollStores
-  PublishAfterUnlock = FALSE
+  PublishAfterUnlock = TRUE
   CreatedRevalidated = TRUE
 INVARIANT EmitSched
 CHECK_DEADLOCK FALSE
